@@ -170,6 +170,7 @@ func RetryWithConfig[T any](opts RetryConfig) func(Observable[T]) Observable[T] 
 				}
 
 				var shouldRetry bool
+				var failed bool // an error notification may carry a nil error: the flag, not the value, tells that the attempt failed
 				var lastErr error
 				lastErrCtx := subscriberCtx
 
@@ -183,6 +184,7 @@ func RetryWithConfig[T any](opts RetryConfig) func(Observable[T]) Observable[T] 
 							destination.NextWithContext(ctx, value)
 						},
 						func(ctx context.Context, err error) {
+							failed = true
 							lastErr = err
 							lastErrCtx = ctx
 							retries++
@@ -197,7 +199,7 @@ func RetryWithConfig[T any](opts RetryConfig) func(Observable[T]) Observable[T] 
 				subscriptions.AddUnsubscribable(sub)
 				sub.Wait()
 
-				if lastErr != nil {
+				if failed {
 					if shouldRetry {
 						if opts.Delay > 0 {
 							// Use context-aware sleep that can be cancelled
@@ -298,7 +300,7 @@ func DoWhileIWithContext[T any](condition func(ctx context.Context, index int64)
 			subscriptions := NewSubscription(nil)
 			currentCtx := subscriberCtx
 			shouldContinue := true
-			var lastErr error
+			failed := false // set by an error notification, whatever error value it carries (nil included)
 
 			for shouldContinue {
 				if subscriptions.IsClosed() {
@@ -312,7 +314,7 @@ func DoWhileIWithContext[T any](condition func(ctx context.Context, index int64)
 					NewObserverWithContext(
 						destination.NextWithContext,
 						func(ctx context.Context, err error) {
-							lastErr = err
+							failed = true
 							destination.ErrorWithContext(ctx, err)
 						},
 						func(ctx context.Context) {
@@ -326,7 +328,7 @@ func DoWhileIWithContext[T any](condition func(ctx context.Context, index int64)
 				subscriptions.AddUnsubscribable(sub)
 				sub.Wait()
 
-				if lastErr != nil {
+				if failed {
 					// Source emitted an error, stop the loop
 					break
 				}
@@ -337,7 +339,7 @@ func DoWhileIWithContext[T any](condition func(ctx context.Context, index int64)
 				}
 			}
 
-			if lastErr == nil {
+			if !failed {
 				destination.CompleteWithContext(currentCtx)
 			}
 
@@ -389,7 +391,7 @@ func WhileIWithContext[T any](condition func(ctx context.Context, index int64) (
 			i := int64(0)
 			subscriptions := NewSubscription(nil)
 			currentCtx := subscriberCtx
-			var lastErr error
+			failed := false // set by an error notification, whatever error value it carries (nil included)
 
 			for !subscriptions.IsClosed() {
 				var nextCtx context.Context
@@ -408,7 +410,7 @@ func WhileIWithContext[T any](condition func(ctx context.Context, index int64) (
 					NewObserverWithContext(
 						destination.NextWithContext,
 						func(ctx context.Context, err error) {
-							lastErr = err
+							failed = true
 							destination.ErrorWithContext(ctx, err)
 						},
 						func(ctx context.Context) {
@@ -420,7 +422,7 @@ func WhileIWithContext[T any](condition func(ctx context.Context, index int64) (
 				subscriptions.AddUnsubscribable(sub)
 				sub.Wait()
 
-				if lastErr != nil {
+				if failed {
 					// Source emitted an error, stop the loop
 					break
 				}
@@ -428,7 +430,7 @@ func WhileIWithContext[T any](condition func(ctx context.Context, index int64) (
 				currentCtx = nextCtx
 			}
 
-			if lastErr == nil {
+			if !failed {
 				destination.CompleteWithContext(currentCtx)
 			}
 
